@@ -517,12 +517,15 @@ def c12(tier, seed):
     out = Outcome("C12", tier, seed, "model_checking")
     thorough = tier == "thorough"
     out.rule = ("TLC checks Oblivious / Separated / BlindFresh of the symbolic group algebra (blinding scalars cancel) over 2 "
-                "servers x 3 tags x 3 inputs x 3 blindings; on the real code, for 3 independently keyed servers x their tags x "
+                "servers x 3 tags x 3 inputs x 3 blindings, and HistoryIndependent / RequestsUnlinkable over every history of up to "
+                "3 requests (server x input x tag x plain/verifiable); on the real code, for 3 independently keyed servers x their tags x "
                 "inputs (empty, 1 B, block-sized, 5 kB, random) x R OS blindings, plain and verifiable: unblind(eval(blind(x))) = "
                 "eval(H(x)), finalised outputs equal within and distinct across (server, tag, input), blinded requests pairwise "
                 "distinct and != H(x); distinct = (server, tag, input, request)")
     out.assumptions = [IDEAL, "H(x) is obtained as unblind(blind(x)) through the public API"]
     _oprf_cases(out, "C12-mc")
+    rh = run_tlc("MC_Oprf", "Oprf_hist.cfg", workers=6, timeout=900, tag="C12-hist")
+    out.add_tlc(rh, "MC_Oprf/Oprf_hist.cfg (request histories)")
     out.add_vh(run_vh(["oprf-check", "--seed", seed, "--blindings", 64 if thorough else 8,
                        "--inputs", 80 if thorough else 45], timeout=3000), only={"C12"})
     return out
